@@ -403,6 +403,14 @@ def bounded_scipy_instance():
             for li in np.ndindex(*lead):
                 ref[li] = scipy.stats.multivariate_normal(mean[li], cov_ref[li]).logpdf(y[li])
             res.update(got=got, ref=ref)
+        elif kind == 'vmf' and inp['seed'] % 4 == 0:
+            # D = 1: the sphere is {-1, +1}; density exp(kappa mu x) / (2 cosh kappa) with respect to the counting measure
+            mu = np.sign(rng.normal(size=lead + (1,)))
+            kap = np.asarray(np.exp(rng.uniform(np.log(1e-3), np.log(300), size=lead)))
+            y = rng.normal(size=lead + (N, 1))
+            got = vm.VonMisesFisher(mean=mu, concentration=kap).log_pdf(y)
+            ref = kap[..., None] * mu * np.sign(y[..., 0]) - (kap[..., None] + np.log1p(np.exp(-2 * kap[..., None])))
+            res.update(got=got, ref=ref)
         elif kind == 'vmf':
             mu = rng.normal(size=lead + (D,))
             mu /= np.linalg.norm(mu, axis=-1, keepdims=True)
@@ -505,6 +513,7 @@ def instances(tier):
     out.append(cacg_instance(2, 1, (2,)))
     out.append(vmf_instance(2, 2))
     out.append(vmf_instance(3, 1, (2,)))
+    out.append(vmf_instance(1, 2))          # D = 1: the sphere {-1, +1}, Bessel order -1/2
     out.append(watson_instance(2, 2))
     out.append(watson_instance(3, 1, (2,)))
     out.append(bingham_instance(2, 1))
